@@ -181,7 +181,7 @@ fn dump(db: &Database) -> String {
 }
 
 /// one schedule; returns (request line with the layout dump, observation line, number of lock events of A)
-pub fn schedule(ctl: &Arc<dsched::Ctl>, tmp: &std::path::Path, a: &str, b: &str, hold: bool, k: u64) -> (String, String, usize) {
+pub fn schedule(ctl: &Arc<dsched::Ctl>, tmp: &std::path::Path, a: &str, b: &str, hold: bool, k: u64) -> (String, String, Vec<String>) {
     let w = prepare(tmp, a);
     // a reader of A's region created before anything happens (only where the schedule cannot need file growth:
     // a held reader blocks it by design)
@@ -192,7 +192,7 @@ pub fn schedule(ctl: &Arc<dsched::Ctl>, tmp: &std::path::Path, a: &str, b: &str,
     let out = dsched::run(ctl, k, a_op(&w, a), b_script(&w, b));
     let mut fails: Vec<String> = vec![];
     if let Some(who) = out.hung {
-        return (format!("sched {k} | -"), format!("hung | L - | O fail:C10: {who} did not return within 20 s (A parked at {:?})", out.parked_at), out.trace.len());
+        return (format!("sched {k} | -"), format!("hung | L - | O fail:C10: {who} did not return within 20 s (A parked at {:?})", out.parked_at), out.trace.clone());
     }
     if out.subject_panicked { fails.push(format!("C10: A's operation `{a}` panicked (parked at {:?} while B ran `{b}`)", out.parked_at)); }
     if out.script_panicked { fails.push(format!("C10: B's script `{b}` panicked (A parked at {:?} in `{a}`)", out.parked_at)); }
@@ -219,7 +219,7 @@ pub fn schedule(ctl: &Arc<dsched::Ctl>, tmp: &std::path::Path, a: &str, b: &str,
     let d = if out.subject_panicked || out.script_panicked { "-".to_string() } else { dump(&w.db) };
     drop(held);
     let o = if fails.is_empty() { "ok".to_string() } else { fails.truncate(3); format!("fail:{}", fails.join("; ")) };
-    (format!("sched {k} | {d}"), format!("{} w={} | L {} | O {o}", out.parked_at.clone().unwrap_or("-".into()), out.script_waited as u8, if d == "-" { "-" } else { "ok" }), out.trace.len())
+    (format!("sched {k} | {d}"), format!("{} w={} | L {} | O {o}", out.parked_at.clone().unwrap_or("-".into()), out.script_waited as u8, if d == "-" { "-" } else { "ok" }), out.trace.clone())
 }
 
 pub fn pairs() -> Vec<(String, String, bool)> {
@@ -255,12 +255,14 @@ pub fn main(args: &Args) -> i32 {
                 let (l0, o0, n) = schedule(&ctl, &tmp, a, b, *hold, 0);
                 writeln!(ops_out, "{l0}").unwrap();
                 writeln!(impl_out, "{o0}").unwrap();
-                let mut k = 1 + args.num("--seed", 1) % stride;
-                while k <= n as u64 {
+                // every `stride`-th event, plus every point at which the subject is about to take a write lock or has just
+                // finished copying data (the windows between two of its effects)
+                let off = 1 + args.num("--seed", 1) % stride;
+                let ks: Vec<u64> = (1..=n.len() as u64).filter(|k| (*k >= off && (*k - off) % stride == 0) || n[*k as usize - 1].starts_with("req:W:") || n[*k as usize - 1] == "rel:R:MmapMut").collect();
+                for k in ks {
                     let (l, o, _) = schedule(&ctl, &tmp, a, b, *hold, k);
                     writeln!(ops_out, "{l}").unwrap();
                     writeln!(impl_out, "{o}").unwrap();
-                    k += stride;
                 }
             }
             0
